@@ -25,6 +25,7 @@ static inline bool iora_smapN_erase_id(iora_smapN *m, SessionId id)
 { for (size_t i = 0; i < IORA_NS; i++) if (i < m->n && m->v[i]->id == id) { free(m->v[i]); for (size_t j = 0; j + 1 < IORA_NS; j++) if (j >= i && j + 1 < m->n) m->v[j] = m->v[j + 1]; m->n--; return 1; }
   return 0; }
 static inline Session *iora_smapN_lookup(const iora_smapN *m, SessionId id) { for (size_t i = 0; i < IORA_NS; i++) if (i < m->n && m->v[i]->id == id) return m->v[i]; return NULL; }
+static inline void iora_smapN_destroy_all(iora_smapN *m) { for (size_t i = 0; i < IORA_NS; i++) if (i < m->n) free(m->v[i]); m->n = 0; }
 /* unordered_map<ListenerId, unique_ptr<Listener>> */
 typedef struct { size_t n; Listener *v[IORA_NL]; } iora_lmapN;
 static inline size_t iora_lmapN_size(const iora_lmapN *m) { return m->n; }
@@ -57,6 +58,7 @@ static inline bool iora_tmapN_emplace(iora_tmapN *m, int fd, Tag *t)
   IORA_ASSERT(m->n < IORA_NT, "bounded stand-in: map within the bound"); m->fd[m->n] = fd; m->v[m->n] = t; m->n++; return 1; }
 static inline void iora_tmapN_clear(iora_tmapN *m) { for (size_t i = 0; i < IORA_NT; i++) if (i < m->n) free(m->v[i]); m->n = 0; }
 static inline size_t iora_tmapN_erase(iora_tmapN *m, int fd) { iora_tmapN_it it = iora_tmapN_find(m, fd); if (!it.found) return 0; iora_tmapN_erase_it(m, it); return 1; }
+static inline Tag *iora_tmapN_lookup(const iora_tmapN *m, int fd) { iora_tmapN_it it = iora_tmapN_find(m, fd); return it.found ? m->v[it.i] : (Tag *)0; }
 /* std::deque<Command> */
 typedef struct { size_t n; Command v[IORA_NC]; } iora_cmdq;
 #define iora_cmdq_DEFAULT ((iora_cmdq){0})
